@@ -70,7 +70,8 @@ def generate(prop, rng, index, tier):
             k = rng.random()
             if k < 0.45:
                 actor.append({"do": "garbage-cell", "row": rng.randrange(nrows), "col": rng.randrange(ncols),
-                              "text": rng.choice(["n/a", "", "NULL", "1;5x", "--", "1.2.3", "abc", "1 2", "0x1F"])})
+                              "text": rng.choice(["n/a", "", "NULL", "1;5x", "--", "1.2.3", "abc", "1 2", "0x1F", "#N/A", "# 5", "#12",
+                                                  "%3", "!7", "//1"])})
             elif k < 0.52:
                 # every cell of one row emptied (",," or a lone ""): not a blank line - the cells are there, and not numeric
                 actor.append({"do": "empty-row", "row": rng.randrange(nrows)})
